@@ -132,6 +132,7 @@ static JVal derive_source(const JVal& t, vf::Rng& r, int depth, bool hostile) {
   return s;
 }
 
+#ifndef VF_FUZZ_TARGET
 int main(int argc, char** argv) {
   std::vector<vf::Stream> S;
   // every root kind combination, including empty containers
@@ -184,3 +185,4 @@ int main(int argc, char** argv) {
                }});
   return vf::run(argc, argv, S);
 }
+#endif  // VF_FUZZ_TARGET
